@@ -26,6 +26,8 @@ ASSUMPTIONS = [
     "programs: up to 3 pre-subscribed observers, 2-4 threads, <= 3 operations each, keys of depth <= 2; schedules are sampled, not exhausted",
     "a further batch runs on the access-instrumented build with 0.5-3.3 % of the plain memory accesses turned into scheduling points (torn executions)",
     "some notify/exists/depth calls are issued from inside a callback of a second router (the caller then holds that router's read lock); the second router is never written",
+    "one-shot observers (SelfView::invalidate) are delivered concurrently only in a separate batch that judges crashes (known finding F12); in the validated "
+    "programs a one-shot observer fires in the single-threaded set-up, and its stale handle is then unsubscribed (the call throws) next to the other operations",
 ]
 
 
@@ -106,6 +108,31 @@ def programs(seed, count):
                     else:
                         ops.append("N" + k)
                 progs.append(",".join(ops))
+        elif rnd.random() < 0.15:
+            # stale handle: a one-shot observer fires in the (single-threaded) set-up and is removed by that notify, then ONE
+            # thread unsubscribes through its handle (nothing to remove: the call throws std::invalid_argument) while
+            # the others notify / subscribe / unsubscribe. The throwing call must leave the lock as it found it.
+            k, k2 = rnd.choice(KEYS), rnd.choice(KEYS)
+            pre = ["V%s#1" % k, "S%s#2" % k2, "S%s#3" % k, "N" + k]
+            # observer 3 stays subscribed to the end: it keeps the subject of key k alive, which the stale handle still points to
+            # (a shrink that destroyed that subject would leave the handle dangling -- spec note N9, not a matter of C11)
+            nid, spare = 4, [2]
+            progs = [",".join(["U1"] * rnd.randrange(1, 3) + (["N" + k] if rnd.random() < 0.3 else []))]
+            for w in range(rnd.randrange(1, 4)):
+                ops = []
+                for j in range(rnd.randrange(1, 4)):
+                    r = rnd.random()
+                    if r < 0.5:
+                        ops.append("N" + rnd.choice([k, k2, "r:.*", "r:.*/r:.*"]))
+                    elif r < 0.7:
+                        ops.append("S%s#%d" % (rnd.choice([k, k2]), nid))
+                        nid += 1
+                    elif r < 0.85 and spare:
+                        ops.append("U%d" % spare.pop())
+                    else:
+                        ops.append(rnd.choice(["H" + k, "E" + k2, "D"]))
+                progs.append(",".join(ops))
+            rnd.shuffle(progs)
         sched = "seed=%d" % rnd.randrange(1, 2 ** 31)
         if rnd.random() < 0.35:
             sched += " pct=%d len=%d" % (rnd.randrange(1, 4), rnd.randrange(20, 120))
